@@ -391,7 +391,56 @@ def pit_case(torch, seed, style, full=False):
                             break
                 elif still and any(any(v != 0 for v in o['specs'][which]['grad32'][n]) for n, _ in still):
                     o['fails'].append(('gradient-changes-with-trainability-switch:' + which, {'switch': sw, 'cost_requires_grad': False}))
+            # the two weight sentences, on EXACTLY what the wrapper reports as network parameters under this switch, once
+            # they have been made trainable: no gradient reaches them, perturbing them changes no cost
+            getattr(p, rng.choice(['train_net_only', 'train_net_and_nas']))()
+            netw_now = list(p.named_net_parameters())
+            for which in names:
+                c = p.get_cost(which)
+                gw = torch.autograd.grad(c, [q for _, q in netw_now if q.requires_grad], allow_unused=True) if c.requires_grad and any(q.requires_grad for _, q in netw_now) else []
+                bad_w = [n for (n, _), gg in zip([(n, q) for n, q in netw_now if q.requires_grad], gw) if gg is not None and bool((gg != 0).any())]
+                if bad_w:
+                    o['fails'].append(('gradient-reaches-network-weight:' + which, {'switch': sw, 'net_parameters_with_gradient': bad_w[:4]}))
+            gp = torch.Generator().manual_seed(seed + 13)
+            with torch.no_grad():
+                for n, q in netw_now:
+                    if q.dtype.is_floating_point:
+                        q.add_(torch.randn(q.shape, generator=gp) * 0.25)
+            for which in names:
+                c2 = float(p.get_cost(which))
+                if c2 != o['specs'][which]['value']:
+                    o['fails'].append(('cost-depends-on-weights:' + which, {'switch': sw, 'before': o['specs'][which]['value'], 'after_perturbing_net_parameters': c2}))
             restore_flags(p, flags0)
+            setall(vals0)
+        # ---- a wrapper CONSTRUCTED with one search dimension switched off: same masks -> same costs, same weight sentences
+        stage = 'constructor-switch'
+        off = rng.choice(['train_features', 'train_rf', 'train_dilation'])
+        o['constructed_off'] = off
+        pc = PIT(ga.build(spec, seed=seed), input_shape=tuple(spec['input_shape']), cost=dict(specs), **dict(kw, **{off: False}))
+        pcp = dict(pc.named_parameters())
+        with torch.no_grad():
+            for n, q in train:
+                if n in pcp:
+                    pcp[n].copy_(torch.tensor(vals0[n], dtype=pcp[n].dtype).reshape(pcp[n].shape))
+        pc.train_net_and_nas()
+        netw_c = list(pc.named_net_parameters())
+        for which in names:
+            c = pc.get_cost(which)
+            if float(c) != o['specs'][which]['value']:
+                o['fails'].append(('cost-changes-with-trainability-switch:' + which, {'constructed_with': off + '=False', 'all_dimensions_searched': o['specs'][which]['value'], 'value': float(c)}))
+            req = [(n, q) for n, q in netw_c if q.requires_grad]
+            gw = torch.autograd.grad(c, [q for _, q in req], allow_unused=True) if c.requires_grad and req else []
+            bad_w = [n for (n, _), gg in zip(req, gw) if gg is not None and bool((gg != 0).any())]
+            if bad_w:
+                o['fails'].append(('gradient-reaches-network-weight:' + which, {'constructed_with': off + '=False', 'net_parameters_with_gradient': bad_w[:4]}))
+        with torch.no_grad():
+            for n, q in netw_c:
+                if q.dtype.is_floating_point:
+                    q.add_(torch.randn(q.shape, generator=torch.Generator().manual_seed(seed + 17)) * 0.25)
+        for which in names:
+            c2 = float(pc.get_cost(which))
+            if c2 != o['specs'][which]['value']:
+                o['fails'].append(('cost-depends-on-weights:' + which, {'constructed_with': off + '=False', 'before': o['specs'][which]['value'], 'after_perturbing_net_parameters': c2}))
         stage = 'reassign'
         setall(lo)
         p.cost_specification = dict(specs)
